@@ -13,6 +13,8 @@ enum Fault {
     MissingPath,
     /// a path that does not exist and does not end in `.circom` is named instead of the target file
     MissingOther(usize),
+    /// the named path is a symlink `*.circom` to a file without extension that holds a lexical error
+    SymlinkToBlob,
     /// a block comment opened at the end of the file and never closed (text `usize` of UNTERMINATED, no final newline)
     Unterminated(usize),
     DanglingSymlink,
@@ -40,6 +42,7 @@ impl Fault {
             Fault::MissingOther(k) => format!("missing_path:{}", MISSING_NAMES[*k]),
             Fault::Unterminated(k) => format!("unterminated_comment:{}", UNTERMINATED[*k].replace('\n', "\\n")),
             Fault::DanglingSymlink => "dangling_symlink".into(),
+            Fault::SymlinkToBlob => "symlink_to_file_without_extension".into(),
             Fault::InvalidUtf8 => "invalid_utf8".into(),
             Fault::VersionTooNew(k) => format!("version_too_new:{}", TOO_NEW[*k].join(".")),
             Fault::VersionTooOld(k) => format!("version_too_old:{}", TOO_OLD[*k].join(".")),
@@ -57,7 +60,7 @@ impl Fault {
         match self {
             Fault::MissingPath | Fault::MissingOther(_) | Fault::DanglingSymlink | Fault::InvalidUtf8 => &["P1000"],
             Fault::VersionTooNew(_) | Fault::VersionTooOld(_) => &["P1003"],
-            Fault::Lexical(..) | Fault::Unmatched(..) | Fault::DroppedSemicolon(..) | Fault::SecondMainSameFile | Fault::Unterminated(_) => &["P1000"],
+            Fault::Lexical(..) | Fault::Unmatched(..) | Fault::DroppedSemicolon(..) | Fault::SecondMainSameFile | Fault::Unterminated(_) | Fault::SymlinkToBlob => &["P1000"],
             Fault::Statement(_, _, ids) => ids,
             Fault::DuplicateParam(..) => &["CS0002"],
             Fault::DuplicateDefinition(..) => &["T2008"],
@@ -68,7 +71,7 @@ impl Fault {
     fn located(&self) -> bool {
         !matches!(
             self,
-            Fault::MissingPath | Fault::MissingOther(_) | Fault::DanglingSymlink | Fault::InvalidUtf8 | Fault::VersionTooNew(_) | Fault::VersionTooOld(_) | Fault::TwoMainsTwoFiles
+            Fault::MissingPath | Fault::MissingOther(_) | Fault::DanglingSymlink | Fault::SymlinkToBlob | Fault::InvalidUtf8 | Fault::VersionTooNew(_) | Fault::VersionTooOld(_) | Fault::TwoMainsTwoFiles
         )
     }
 }
@@ -160,6 +163,7 @@ fn apply(p: &GenProject, target: usize, fault: &Fault) -> Option<Vec<u8>> {
             out.push_str(&src[pos..]);
             Some(out.into_bytes())
         }
+        Fault::SymlinkToBlob => Some(format!("@ {src}").into_bytes()),
         Fault::Unterminated(k) => Some(format!("{}\n{}", src.trim_end(), UNTERMINATED[*k]).into_bytes()),
         Fault::Lexical(k, c) | Fault::Unmatched(k, c) => {
             let at = toks.get(*k).map(|t| t.0).unwrap_or(src.len());
@@ -283,7 +287,7 @@ fn case_in(ctx: &Ctx, p: &GenProject, t: &mut Tape, rec: &Rec, dir: &Path) -> Ve
     let target = p.named[t.below(p.named.len())];
     let f = &p.files[target];
     let ntok = f.r.toks.len();
-    let mut faults: Vec<Fault> = vec![Fault::MissingPath, Fault::DanglingSymlink, Fault::InvalidUtf8];
+    let mut faults: Vec<Fault> = vec![Fault::MissingPath, Fault::DanglingSymlink, Fault::SymlinkToBlob, Fault::InvalidUtf8];
     faults.extend((0..MISSING_NAMES.len()).map(Fault::MissingOther));
     faults.extend((0..UNTERMINATED.len()).map(Fault::Unterminated));
     faults.extend((0..TOO_NEW.len()).map(Fault::VersionTooNew));
@@ -345,6 +349,12 @@ fn case_in(ctx: &Ctx, p: &GenProject, t: &mut Tape, rec: &Rec, dir: &Path) -> Ve
             Fault::DanglingSymlink => {
                 let _ = std::os::unix::fs::symlink(fdir.join("does-not-exist.circom"), &tpath);
             }
+            Fault::SymlinkToBlob => {
+                let blob = fdir.join("zzblob-5f3a9c1e");
+                std::fs::write(&blob, &bytes).map_err(|e| Bad::new(format!("INFRA write: {e}")))?;
+                let _ = std::fs::remove_file(&tpath);
+                let _ = std::os::unix::fs::symlink(&blob, &tpath);
+            }
             Fault::TwoMainsTwoFiles => {
                 std::fs::write(&tpath, &bytes).map_err(|e| Bad::new(format!("INFRA write: {e}")))?;
                 let m1 = fdir.join("zmain1.circom");
@@ -361,6 +371,10 @@ fn case_in(ctx: &Ctx, p: &GenProject, t: &mut Tape, rec: &Rec, dir: &Path) -> Ve
         for level in ["info", "warning", "error"] {
             let mut o = RunOpts::files(&named2).verbose().level(level);
             o.cpu_secs = 60;
+            if level == "warning" {
+                // with a SARIF path that cannot be written (missing directory) the failure is still an error
+                o.sarif = Some(fdir.join("zz-no-such-dir").join("out.sarif"));
+            }
             let b = run_bin(ctx, &o)?;
             rec.class(&format!("fault:{}", fault.class()));
             let key = format!("{}/{:?}/{level}", p.hash(), fault);
